@@ -593,10 +593,25 @@ pub fn verdict_c09(h: &DecHistory, sc: &mut Scratch, st: &mut Stats, enumerated:
         } else {
             t8.extend_from_slice(&d8[..tw]);
         }
-        if in_sync {
-            if (res, tr, tw) != (call.res, call.read, call.written) {
-                return Some((format!("call #{}: with replacement returned ({:?}, read {}, written {}) but the manual procedure on identical buffers gives ({:?}, {}, {})", ci, call.res, call.read, call.written, res, tr, tw), "C09:call-differs".into()));
+        if in_sync && (res, tr, tw) != (call.res, call.read, call.written) {
+            // The two runs split the stream differently from here on.  The property speaks about
+            // the text and the booleans, not about where a with-replacement call stops, so this
+            // is not a violation by itself: fall back to comparing the whole output and the OR of
+            // the flags with an independent manual run over the whole stream.
+            st.class("with-replacement-call-splits-differently-from-the-manual-procedure");
+            let r = sc.reference(hr.enc, hr.mode, hr.sink, false, &hr.stream);
+            if !r.ok {
+                return Some((format!("manual-procedure reference run failed: {}", r.problem), "C09:reference".into()));
             }
+            if out.scalars(hr.sink) != r.scalars {
+                return Some((format!("text with replacement [{}] differs from the manual procedure [{}] (first difference in how call #{} returns: ({:?}, read {}, written {}) vs ({:?}, {}, {}))", fw::hex32(out.scalars(hr.sink).as_ref().unwrap_or(&vec![])), fw::hex32(r.scalars.as_ref().unwrap_or(&vec![])), ci, call.res, call.read, call.written, res, tr, tw), "C09:total".into()));
+            }
+            if out.had_errors != r.had_errors {
+                return Some((format!("OR of had_errors = {} but the manual procedure saw {} error(s)", out.had_errors, r.errors.len()), "C09:or".into()));
+            }
+            return None;
+        }
+        if in_sync {
             if call.flag != had {
                 return Some((format!("call #{}: had_errors = {} but the manual procedure substituted {} U+FFFD in this call", ci, call.flag, if had { "at least one" } else { "no" }), "C09:flag".into()));
             }
